@@ -81,3 +81,71 @@ Proof.
   apply gz_loop_scale.
 Qed.
 End Scale.
+
+(* ---------- charset negotiation ---------- *)
+Section ScaleCs.
+Variable k : Z.
+Hypothesis Hk : 0 < k.
+Variable T : Type.
+Variable encodable : list Z -> T -> bool.
+Variable usable : list Z -> bool.
+
+Lemma names_scale (l : list elem) :
+  map (fun e => lower (e_val e)) (map (scale k) l) = map (fun e => lower (e_val e)) l.
+Proof. rewrite map_map. reflexivity. Qed.
+
+Lemma q_pos_scale name l : q_pos name (map (scale k) l) = q_pos name l.
+Proof.
+  unfold q_pos. induction l as [|e r IH]; [reflexivity|].
+  cbn [map existsb]. rewrite IH. unfold scale at 1 2; cbn [e_val e_q]. now rewrite (scale_pos k Hk).
+Qed.
+
+Lemma q_zero_scale name l : q_zero name (map (scale k) l) = q_zero name l.
+Proof.
+  unfold q_zero. induction l as [|e r IH]; [reflexivity|].
+  cbn [map existsb]. rewrite IH. unfold scale at 1 2; cbn [e_val e_q]. now rewrite (scale_eq0 k Hk).
+Qed.
+
+Lemma listed_scale name l : listed name (map (scale k) l) = listed name l.
+Proof. unfold listed. now rewrite names_scale. Qed.
+
+Lemma forced_acceptable_scale rep enc l :
+  forced_acceptable rep enc (map (scale k) l) = forced_acceptable rep enc l.
+Proof.
+  unfold forced_acceptable. rewrite names_scale, !q_pos_scale, q_zero_scale.
+  destruct l; reflexivity.
+Qed.
+
+Lemma find_loop_scale c (try : list Z -> est T -> bool * est T) all els s :
+  find_loop T c try (map (scale k) all) (map (scale k) els) s = find_loop T c try all els s.
+Proof.
+  revert s. induction els as [|e r IH]; intros s; [reflexivity|].
+  cbn [map find_loop]. change (e_val (scale k e)) with (e_val e). change (e_q (scale k e)) with (k * e_q e).
+  rewrite (scale_pos k Hk), listed_scale.
+  destruct (0 <? e_q e); [|apply IH].
+  destruct (eqbZs (e_val e) s_star).
+  - destruct (c_rep_q0 c && listed (lower (c_default c)) all); [apply IH|].
+    destruct (try (c_default c) s) as [ok s1]. destruct ok; [reflexivity|apply IH].
+  - destruct (try (e_val e) s) as [ok s1]. destruct ok; [reflexivity|apply IH].
+Qed.
+
+Lemma find_charset_scale c oneshot ac b :
+  find_charset T encodable usable c oneshot (option_map (map (scale k)) ac) b
+  = find_charset T encodable usable c oneshot ac b.
+Proof.
+  unfold find_charset.
+  assert (He : match option_map (map (scale k)) ac with None => [] | Some els => header_order els end
+               = map (scale k) (match ac with None => [] | Some els => header_order els end)).
+  { destruct ac as [els|]; [|reflexivity]. cbn [option_map]. apply (header_order_scale k Hk). }
+  rewrite He. clear He.
+  set (encs := match ac with None => [] | Some els => header_order els end).
+  rewrite names_scale. destruct (c_forced c) as [f|].
+  - now rewrite forced_acceptable_scale.
+  - rewrite find_loop_scale. destruct encs; reflexivity.
+Qed.
+
+Theorem encode_tool_scale c oneshot ct ac b :
+  encode_tool T encodable usable c oneshot ct (option_map (map (scale k)) ac) b
+  = encode_tool T encodable usable c oneshot ct ac b.
+Proof. unfold encode_tool. now rewrite find_charset_scale. Qed.
+End ScaleCs.
